@@ -38,7 +38,9 @@ Maps == IF MapSel = "all" THEN [Props -> ValsN] ELSE SmallMaps
 OpShapes ==
   {C(u) : u \in OpTaskArgs}
   \cup {U(u, "p", "a", 1, NoVal) : u \in OpTaskArgs}
-  \cup (IF MapSel = "all" THEN {D(u, [EmptyMap EXCEPT !["p"] = "a"]) : u \in OpTaskArgs} ELSE {})
+  \cup (IF MapSel = "all" THEN {D(u, [EmptyMap EXCEPT !["p"] = "a"]) : u \in OpTaskArgs}
+                              \cup {D(u, [EmptyMap EXCEPT !["p"] = "b", !["q"] = "a"]) : u \in OpTaskArgs}
+        ELSE {})
   \cup {UndoPoint}
 
 Shapes ==
